@@ -252,6 +252,19 @@ Theorem C06_spec_no_panic : forall n fs st infos x y,
   exists b, errors_is st (resolve st fs x) (resolve st fs y) = Ok b.
 Proof. exact model_no_panic_judged. Qed.
 
+(* every method after k Converts keeps all k converted errors: for any pool and admissible history,
+   every cell matches every comparable foreign error converted ALONG ITS CHAIN (spec_convs, computed
+   from the history alone) — Base(), DTag, Msg, Stack, a further Convert, ... after two or more
+   Converts forget none of them *)
+Theorem C06_converted_errors_inherited : forall roots fs ops st res,
+  roots_ok roots = true -> fs_vf fs = true -> ops_adm roots fs ops = true ->
+  run_ops ext_wiring (map root_cell_of roots) fs ops = Some (st, res) ->
+  let convs := spec_convs (map (fun _ => []) roots) ops in
+  length convs = length st /\
+  forall a k t p u, a < length st -> In k (nth a convs []) -> nth k fs VNil = VF t true p u ->
+    errors_is st (val_of st a) (VF t true p u) = Ok true.
+Proof. exact spec_convs_sound. Qed.
+
 (* the model never contradicts the judge's specification: judged on its own observations a case
    gets verdict 0 *)
 Theorem C06_model_satisfies_spec : forall c res m ex,
@@ -337,3 +350,4 @@ Print Assumptions C06_spec_no_panic.
 Print Assumptions C06_model_satisfies_spec.
 Print Assumptions C06_siblings_end_to_end.
 Print Assumptions C06_siblings_in_history.
+Print Assumptions C06_converted_errors_inherited.
